@@ -584,6 +584,26 @@ pub fn run(rep: &Report) -> i32 {
         cursor_interleavings(rep, st, s, if t { 4 } else { 3 });
     });
 
+    // ---- free-running complement (sampling; see free_running)
+    {
+        crate::report::arm("free-running threads on shared searchers");
+        let rounds = if t { 200 } else { 10 };
+        let bad = free_running(rounds, false, 4, |_| crate::report::beat());
+        crate::report::disarm();
+        let mut fst = Stats::default();
+        fst.add("free_running_rounds", (rounds * subs.len()) as u64);
+        rep.merge(&fst);
+        for (w, d) in bad.into_iter().take(3) {
+            rep.violation(Violation {
+                property: rep.property.clone(),
+                what: "free-running-mismatch".into(),
+                case: J::obj().set("engine", J::s("sched")).set("mode", J::s("free")).set("subject", J::s(subs[0].name)).set("where", J::s(w.clone())),
+                detail: format!("4 free-running threads on a shared searcher / clone: {}: {}", w, d),
+                tags: vec![],
+            });
+        }
+    }
+
     // ---- part 3: thread schedules, in child processes (one exploration at a
     // time per process, so that explorations cannot disturb each other even
     // if the code under test had process-wide state)
@@ -932,6 +952,76 @@ fn cursor_interleavings(rep: &Report, st: &mut Stats, s: &Subject, steps: usize)
     rec(&mut order, &mut left, &mut run_one);
 }
 
+/// Free-running complement (NOT part of the exhaustive exploration, and
+/// labelled as sampling in the evidence): the token-passing scheduler's
+/// hand-offs are happens-before edges, so unsynchronised accesses to hidden
+/// shared state between two hook points are invisible to it. Here the same
+/// operation bodies run on really parallel threads without the hook: natively
+/// (results compared with the sequential ones, `rounds` times) and, in the
+/// thorough tier, once under Miri, whose data-race detector reports any pair
+/// of conflicting unsynchronised accesses that occurs (`mc C17-free light`).
+/// Returns the list of mismatches.
+pub fn free_running(rounds: usize, light: bool, nthreads: usize, mut progress: impl FnMut(&str)) -> Vec<(String, String)> {
+    aho_corasick::verif::set_sched_hook(None);
+    let subs = subjects();
+    let ops: Vec<usize> = (0..NOPS).filter(|&op| !(light && matches!(op, 9 | 15 | 16 | 17))).collect();
+    let mut bad = vec![];
+    for (si, s) in subs.iter().enumerate() {
+        progress(s.name);
+        let fresh = s.build();
+        let expected: Vec<String> = (0..NOPS).map(|op| if ops.contains(&op) { run_op(&fresh, s, op) } else { String::new() }).collect();
+        let expected = Arc::new(expected);
+        let shared = Arc::new(s.build());
+        let cloned = Arc::new((*shared).clone());
+        for round in 0..rounds {
+            let barrier = Arc::new(std::sync::Barrier::new(nthreads));
+            let mut hs = vec![];
+            for tix in 0..nthreads {
+                let ac = if (tix + si + round) % 3 == 2 { cloned.clone() } else { shared.clone() };
+                let (s2, exp, bar, ops2) = (s.clone(), expected.clone(), barrier.clone(), ops.clone());
+                hs.push(std::thread::spawn(move || {
+                    let mut out = vec![];
+                    bar.wait();
+                    let n = ops2.len();
+                    for k in 0..n {
+                        // different threads walk the operations in different orders
+                        let op = match tix % 3 {
+                            0 => ops2[k],
+                            1 => ops2[n - 1 - k],
+                            _ => ops2[(k * 7 + round) % n],
+                        };
+                        let got = run_op(&ac, &s2, op);
+                        if got != exp[op] {
+                            out.push((format!("{} / {} (thread {} of {}, round {})", s2.name, op_name(op), tix, n, round), format!("got {} but sequentially {}", got, exp[op])));
+                        }
+                    }
+                    out
+                }));
+            }
+            for h in hs {
+                match h.join() {
+                    Ok(v) => bad.extend(v),
+                    Err(_) => bad.push((format!("{} round {}", s.name, round), "a thread panicked".into())),
+                }
+            }
+            if !bad.is_empty() {
+                return bad;
+            }
+        }
+    }
+    bad
+}
+
+/// `mc C17-free <light|full> <rounds>`: entry point for the Miri pass.
+pub fn free_main(light: bool, rounds: usize) -> i32 {
+    let bad = free_running(rounds, light, 2, |name| println!("free-running subject={}", name));
+    for (w, d) in &bad {
+        println!("FREE-MISMATCH {}: {}", w, d);
+    }
+    println!("free-running pass done: {} mismatches", bad.len());
+    (!bad.is_empty()) as i32
+}
+
 pub fn replay(case: &J) -> i32 {
     let subs = subjects();
     let name = case.str_of("subject");
@@ -944,6 +1034,14 @@ pub fn replay(case: &J) -> i32 {
     println!("subject={} patterns={} mode={} ops={:?} schedule={:?}", s.name, pats_show(&s.pats), case.str_of("mode"), ops, schedule);
     let expected: Vec<String> = (0..NOPS).map(|op| run_op(&s.build(), &s, op)).collect();
     match case.str_of("mode").as_str() {
+        "free" => {
+            let bad = free_running(200, false, 4, |_| {});
+            for (w, d) in &bad {
+                println!("  {}: {}", w, d);
+            }
+            println!("(free-running threads: a sampling complement; a clean rerun does not prove absence)");
+            (!bad.is_empty()) as i32
+        }
         "cross" => {
             let sa = match subs.iter().find(|x| x.name == case.str_of("first_subject")) {
                 Some(x) => x.clone(),
